@@ -847,6 +847,14 @@ var vfScripts = [][]string{
 	{"MKDIR / a", "CREATE /a f", "MKDIR / b", "LOOKUP /b f", "LOOKUP /b g", "RMDIR / b", "RENAME / a / b", "LOOKUP /b f", "LOOKUP /b g", "READDIR /b", "CREATE /b g", "LOOKUP /b g"},
 	{"MKDIR / a", "MKDIR /a s", "CREATE /a/s f", "MKDIR / b", "MKDIR /b s", "LOOKUP /b/s f", "RMDIR /b s", "RMDIR / b", "RENAME / a / b", "LOOKUP /b s", "LOOKUP /b/s f", "READDIRPLUS /b/s"},
 	{"MKDIR / p", "CREATE /p f", "LOOKUP /p f", "REMOVE /p f", "RMDIR / p", "LOOKUP / p", "MKDIR / p", "LOOKUP /p f", "READDIR /p"},
+	// two directory trees of the same shape swapped by RENAME: what was cached two levels below
+	// the old name (a file with data) must not be reported for the new occupant (a directory)
+	{"MKDIR / a", "MKDIR /a s", "CREATE /a/s f", "WRITE /a/s/f", "LOOKUP /a/s f", "GETATTR /a/s/f", "MKDIR / b", "MKDIR /b s", "MKDIR /b/s f", "RENAME / a / c", "RENAME / b / a",
+		"LOOKUP / a", "LOOKUP /a s", "LOOKUP /a/s f", "GETATTR /a/s/f", "READDIRPLUS /a/s", "LOOKUP / c", "LOOKUP /c s", "LOOKUP /c/s f", "GETATTR /c/s/f"},
+	// a miss remembered two levels below a name, then another tree renamed onto that name
+	{"MKDIR / n", "MKDIR /n s", "LOOKUP /n/s x", "RMDIR /n s", "RMDIR / n", "MKDIR / m", "MKDIR /m s", "CREATE /m/s x", "RENAME / m / n", "LOOKUP / n", "LOOKUP /n s", "LOOKUP /n/s x", "READDIR /n/s"},
+	// the same one level deeper on the source side: entries below the OLD name of a moved tree
+	{"MKDIR / a", "MKDIR /a s", "CREATE /a/s f", "LOOKUP /a/s f", "RENAME / a / b", "MKDIR / a", "MKDIR /a s", "LOOKUP / a", "LOOKUP /a s", "LOOKUP /a/s f", "READDIR /a/s", "SYMLINK /a/s f zz", "LOOKUP /a/s f", "READLINK /a/s/f"},
 }
 
 // runScript executes one scripted scenario; returns false if it stopped early.
